@@ -1316,10 +1316,17 @@ impl Database {
                 col_indices.iter().any(|idx| modified_col_indices.contains(idx))
             });
 
+        // The one-pass path rewrites the row in place and nothing else: it is only
+        // valid when no index covers a modified column and nothing is to be returned.
         let can_onepass = pk_lookup_info.is_some()
             && unique_col_indices.is_empty()
             && !has_toast
-            && deferred_assignments.is_empty();
+            && deferred_assignments.is_empty()
+            && !needs_old_row_for_secondary_index
+            && !hnsw_indexes
+                .iter()
+                .any(|(_, col_idx)| modified_col_indices.contains(col_idx))
+            && update.returning.is_none();
 
         if can_onepass {
             if let Some((ref target_key, ref target_val)) = pk_lookup_info {
